@@ -5,6 +5,7 @@ interleaving of the six actions over the bounded configuration; every transition
 from __future__ import annotations
 
 import copy
+import json
 from collections import deque
 
 from .core import canon, short, shrink, outcome, octs
@@ -125,8 +126,10 @@ def run_stage(ctx, prefix="link"):
     w0 = World(scripts)
     init = canon(w0.project(n))
     if init not in edges:
-        from .core import MachineryError
-        raise MachineryError("link: the initial state of the real world does not occur in the explored graph")
+        ctx.violation(f"{prefix}.init/state/", f"end-to-end session: freshly constructed objects project to {short(w0.project(n), 600)}, "
+                      "which is not the initial state of the specification",
+                      {"kind": "link-path", "n": n, "scripts": scripts, "path": [], "expected": json.loads(sorted(edges)[0]) if edges else {}})
+        return
     seen = {init}
     stack = [(init, w0, [])]
     cnt = 0
